@@ -382,14 +382,21 @@ func (ex *Exec) doUnOp(st *State, fr *Frame, u *ssa.UnOp) {
 			if ci, cet := ex.chanInvOf(u.X); ci != nil {
 				st.assume(Implies(okv, ex.chanValueFact(st, fr, ci, v, cet)))
 			}
+			if cv, ok := ex.val(st, fr, u.X).(Scalar); ok {
+				// ok == false happens only on a closed channel
+				st.assume(Or(okv, Select(st.heapGet(chanClosedClass, SArr(SInt, SBool)), cv.T)))
+			}
 			fr.Regs[u] = TupleV{[]Value{v, Scalar{okv}}}
 		} else {
 			v := freshValue("recv", u.Type())
 			ex.assumeInv(st, u.Type(), v)
-			// (a receive from a closed channel yields the zero value: invariants are declared for channels
-			// that are not closed while values are expected - none of the annotated ones is ever closed)
+			// the value was sent (and satisfies the channel's invariant), or the channel is closed
 			if ci, cet := ex.chanInvOf(u.X); ci != nil {
-				st.assume(ex.chanValueFact(st, fr, ci, v, cet))
+				fact := ex.chanValueFact(st, fr, ci, v, cet)
+				if cv, ok := ex.val(st, fr, u.X).(Scalar); ok && !ex.chanOpenOf(u.X) {
+					fact = Or(fact, Select(st.heapGet(chanClosedClass, SArr(SInt, SBool)), cv.T))
+				}
+				st.assume(fact)
 			}
 			fr.Regs[u] = v
 		}
@@ -1001,6 +1008,28 @@ func (ex *Exec) chanInvOf(v ssa.Value) (*Clause, types.Type) {
 	return &c, ch.Elem()
 }
 
+// chanOpenOf: is the SSA value a read of a struct field whose channel is declared never closed.
+func (ex *Exec) chanOpenOf(v ssa.Value) bool {
+	ld, ok := v.(*ssa.UnOp)
+	if !ok || ld.Op != token.MUL {
+		return false
+	}
+	fa, ok := ld.X.(*ssa.FieldAddr)
+	if !ok {
+		return false
+	}
+	pt, ok := under(fa.X.Type()).(*types.Pointer)
+	if !ok {
+		return false
+	}
+	st, ok := under(pt.Elem()).(*types.Struct)
+	if !ok {
+		return false
+	}
+	ts := ex.Specs.Types[typeName(pt.Elem())]
+	return ts != nil && ts.ChanOpen[st.Field(fa.Field).Name()]
+}
+
 // chanValueFact evaluates a channel invariant for the value val (bound to v).
 func (ex *Exec) chanValueFact(st *State, fr *Frame, c *Clause, val Value, et types.Type) *Term {
 	env := ex.loopEnv(st, fr)
@@ -1094,7 +1123,12 @@ func (ex *Exec) doSelect(st *State, fr *Frame, s *ssa.Select) {
 		for i, state := range s.States {
 			if state.Dir == types.RecvOnly {
 				if ci, cet := ex.chanInvOf(state.Chan); ci != nil {
-					st.assume(Implies(Eq(idx, IntLit(int64(i))), ex.chanValueFact(st, fr, ci, tv.V[k], cet)))
+					fact := ex.chanValueFact(st, fr, ci, tv.V[k], cet)
+					if cv, ok := ex.val(st, fr, state.Chan).(Scalar); ok && !ex.chanOpenOf(state.Chan) {
+						// the value was sent, or the channel is closed
+						fact = Or(fact, Select(st.heapGet(chanClosedClass, SArr(SInt, SBool)), cv.T))
+					}
+					st.assume(Implies(Eq(idx, IntLit(int64(i))), fact))
 				}
 				k++
 			} else if state.Dir == types.SendOnly {
